@@ -1,6 +1,7 @@
 import Lean.Data.Json
 import OsloPolicy.Model.Enforce
 import OsloPolicy.Spec.Grammar
+import OsloPolicy.Model.Validate
 import OsloPolicy.Generated.PyTables
 /-
 JSON-lines driver: one request per line on stdin, one answer per line on stdout.
@@ -179,6 +180,21 @@ def handle (j : Json) : Except String Json := do
       pure (Json.str (outcomeStr out))
     pure (Json.mkObj [("out", .arr outs.toArray),
                       ("printed", Json.mkObj (rules.entries.map fun (k, t) => (l2s k, Json.str (l2s t.print))))])
+  | "check_rules" => do
+    let rules ← rulesOf j
+    let rs := rules.entries
+    let names (l : List Str) : Json := .arr (l.map fun n => Json.str (l2s n)).toArray
+    pure (Json.mkObj [("ok", checkRules rs (getBoolD j "skip")),
+                      ("undefined", names (undefinedNames rs)), ("cyclic", names (cyclicNames rs))])
+  | "validator" => do
+    let rules ← rulesOf j
+    let fr := (getArrD j "file_rules").toList.filterMap fun p => match p with
+      | .arr #[.str n, .bool b] => some (s2l n, b)
+      | _ => none
+    let reg := (getArrD j "registered_names").toList.filterMap fun p => match p with
+      | .str n => some (s2l n)
+      | _ => none
+    pure (Json.mkObj [("status", validatorStatus (getBoolD j "file_missing") rules.entries fr reg)])
   | "spec_den" => do
     -- {"e": <stratified expression>, "assign": [[true leaf texts…]…]} ↦ Boolean value of the
     -- sentence under each assignment, computed by Spec.Grammar (not by the parser model)
